@@ -239,6 +239,16 @@ func bfgs(f_ Objective, f ObjectiveInSitu, x0 Vector, H0 Matrix, epsilon Epsilon
     return x1, nil
   }
 
+  // constraints for the line search: a step length is admissible if
+  // the new position satisfies the constraints
+  constraints_line := lineSearch.Constraints{nil}
+  if constraints.Value != nil {
+    constraints_line.Value = func(alpha ConstScalar) bool {
+      p2.VmulS(p1, alpha)
+      x2.VaddV(x1, p2)
+      return constraints.Value(x2)
+    }
+  }
   // keep track of whether H has been updated before
   first_update := true
   for i := 0; i < maxIterations.Value; i++ {
@@ -250,10 +260,20 @@ func bfgs(f_ Objective, f ObjectiveInSitu, x0 Vector, H0 Matrix, epsilon Epsilon
       return f_(X2)
     }
     // perform line search to find a new point x2
-    alpha, err := lineSearch.Run(phi, Float64Type, lineSearch.Parameters{1, 100})
+    alpha, err := lineSearch.Run(phi, Float64Type, lineSearch.Parameters{1, 100}, constraints_line)
     // compute new position
-    p2.VmulS(p1, alpha)
-    x2.VaddV(x1, p2)
+    if err == nil {
+      p2.VmulS(p1, alpha)
+      x2.VaddV(x1, p2)
+      // never accept a position that violates the constraints
+      if constraints.Value != nil && !constraints.Value(x2) {
+        err = fmt.Errorf("line search failed")
+      }
+    }
+    if err != nil {
+      // the line search failed, stay at the current position
+      x2.Set(x1)
+    }
 
     if err != nil || equals(x1, x2) {
       // reset H to find a new direction
